@@ -19,7 +19,7 @@ for d in sorted(os.listdir(os.path.join(ROOT, "seeded"))):
     missed += first == "missed"
     rows.append("| %s | %s | %s | %s |" % (m["id"], title.replace("|", "\\|"), first, det.replace("|", "\\|")))
 B, E = "<!-- BEGIN seeded table -->", "<!-- END seeded table -->"
-block = B + "\n\n%d changes stored, %d of them missed by the first version of the check and caught after the strengthening described in the last column; all %d are caught by `./check <property>` (quick tier, seed 1) now, each with a concrete replay input.\n\n| id | change | first run | how it is detected |\n|---|---|---|---|\n" % (len(rows), missed, len(rows)) + "\n".join(rows) + "\n\n" + E
+block = B + "\n\n%d changes stored, %d of them missed by the first version of the check and caught after the strengthening described in the last column; all %d are caught by `./check <property>` (quick tier, seed 1) now, each with a concrete replay input except where the last column says otherwise (`seeded/REGRESSION.json` has status and wall time per change as last measured).\n\n| id | change | first run | how it is detected |\n|---|---|---|---|\n" % (len(rows), missed, len(rows)) + "\n".join(rows) + "\n\n" + E
 p = os.path.join(ROOT, "DESIGN.md")
 s = open(p, encoding="utf-8").read()
 if B in s:
